@@ -32,6 +32,8 @@
          the only non-Python result of the model, `.other`, is characterised exactly (`C01_other_iff_duplicate`: a cell key / sample name
          of the data listed twice in a supplied mapping) and never occurs for a mapping with pairwise different keys, in particular never
          for a batchie-produced one (`C01_never_other`).
+  Regression (not a clause), in Props/C01Regress.lean: S7-C01 control name matched after case folding → `S7_C01_normalised_control_test_breaks_iff` (general),
+         `S7_C01_casefold_counterexample` (witness), against the general `freshTableWith_control_iff`; S5-C01 / S6-C01 are memory-layout effects (harness-only).
   harness-only: independence of memory layout / dtype width / writability and "inputs unchanged" (no arrays in a functional model);
          the sign of a -0.0 dose (doses are exact rationals); `ExperimentSpace.save_h5`/`load_h5` carrying the mapping (container fidelity
          of h5py, np.char.encode/decode); pandas' drop_duplicates / sort_values / merge agreeing with eraseDups / mergeSort / lookup (tie).
